@@ -177,6 +177,15 @@ pub fn scenarios(thorough: bool) -> Vec<Scenario> {
     v.push(pair_conflict_scenario("pair-conflict", 2, 3, if thorough { &[1, 8, 4] } else { &[1, 8] }, if thorough { 5 } else { 4 },
         &[Op::Resolve(1, 0, 0), Op::Resolve(1, 0, 1), Op::Commit(1, 1), Op::Meld(0, 1)]));
     v.push(trio_scenario("trio", if thorough { 7 } else { 6 }));
+    // commits made after time travel (later blocks stay known but unapplied) and beside melded, unrefreshed blocks
+    {
+        let a = arr_docs();
+        let mut sc = single_scenario("single-travel", vec![a[0].clone(), a[2].clone(), a[3].clone(), a[9].clone()], if thorough { 5 } else { 4 },
+            &[Op::Travel(0, 0), Op::Travel(0, 1), Op::Reload(0)]);
+        sc.key_opts.heads = true;
+        sc.prologue = vec![Op::Upd(0, 0), Op::Commit(0, 0), Op::Upd(0, 1), Op::Commit(0, 1), Op::Upd(0, 2), Op::Commit(0, 0)];
+        v.push(sc);
+    }
     v
 }
 
